@@ -3,7 +3,7 @@
    of the safe mode makes of the tag: the tag itself, nothing, the replacement text, or the escaped tag.  So the three policies
    differ at the tag and nowhere else, and the surrounding text is rendered the same. *)
 From Rimu Require Import Base Unicode Regex RegexSem RegexAnalysis RegexParse Str Types Tables Guards State Inline
-  MatchLemmas Placeholder MatchExact FilterLemmas Plain MacroSubst Emphasis.
+  MatchLemmas Placeholder MatchExact ScanLemmas Plain.
 From Coq Require Import Lia.
 Local Open Scope monad_scope.
 
@@ -215,9 +215,6 @@ Variable sr : str -> I str.
 Definition tag_of (name : str) : str := 60 :: name ++ [62].
 Definition tag_frag (name : str) : frag := mkFrag (htmlSafeModeFilter s (tag_of name)) true (tag_of name).
 
-Lemma ibind_iret_l {A B} (a : A) (f : A -> I B) : ibind (iret a) f = f a.
-Proof. unfold ibind, iret. destruct (f a) as [[b l]|e|]; reflexivity. Qed.
-
 Lemma fragReplacement_step n d text m : re_search (r_re d) text = Some m ->
   fragReplacement s sr (S n) d text =
   (rep <-i replacement_text s sr d m ;; rest <-i fragReplacement s sr n d (dropN (m_end m) text) ;;
@@ -290,14 +287,15 @@ Qed.
 End Tag.
 
 (* ---- quotes and the placeholder ---- *)
-Lemma ph_no_match : okA ph_alphabet (re_ast qre) = false /\ okA ph_alphabet (re_ast (unescapeRe quotes_default)) = false.
+Definition hqre := quotesRe quotes_default.
+Lemma ph_no_match : okA ph_alphabet (re_ast hqre) = false /\ okA ph_alphabet (re_ast (unescapeRe quotes_default)) = false.
 Proof. split; vm_compute; reflexivity. Qed.
 
-Lemma fragQuote_none n t : re_search qre t = None -> fragQuote (S (S n)) quotes_default qre t = Ok [undone t].
+Lemma fragQuote_none n t : re_search hqre t = None -> fragQuote (S (S n)) quotes_default hqre t = Ok [undone t].
 Proof.
   intros H. cbn [fragQuote find_quote]. unfold re_search_pos.
   assert (E : skip_to 0 0 None t = (0, None, t)) by (destruct t; reflexivity).
-  rewrite E. fold (re_search qre t). rewrite H. reflexivity.
+  rewrite E. fold (re_search hqre t). rewrite H. reflexivity.
 Qed.
 
 Lemma escape_app a b : escape (a ++ b) = escape a ++ escape b.
@@ -328,7 +326,7 @@ Proof.
   unfold frag_placeholder_text. cbn [flat_map undone f_done f_text tag_frag app]. rewrite app_nil_r.
   assert (Hph : over ph_alphabet (pre ++ 0 :: post)).
   { unfold ph_alphabet. intros x Hx. apply in_or_app. apply in_app_or in Hx as [Hx|[<-|Hx]]; [left; auto|right; left; reflexivity|left; auto]. }
-  unfold fragQuotes. cbn [res_concat_map undone f_done f_text]. fold qre.
+  unfold fragQuotes. cbn [res_concat_map undone f_done f_text]. fold hqre.
   rewrite (fragQuote_none (S n)) by (apply (re_search_none_over ph_alphabet); [apply ph_no_match|exact Hph]).
   cbn [app map undone f_done f_text f_verb of_res]. rewrite ibind_iret_l. cbn [flat_map undone f_done f_text app].
   unfold quotes_unescape. rewrite (re_sub_none_over ph_alphabet); [|apply ph_no_match|exact Hph].
